@@ -249,6 +249,7 @@ def make_diff(rng, tier):
         init.append({'text': t} if fsmode else None)
     ops = []
     nedits = rng.randint(4, 25 if tier == 'quick' else 40)
+    ro = False
     mode = 'cache+diff' if fsmode else rng.choice(['diff', 'diff', 'diff', 'cache+diff'])
     for f in range(nfiles):
         for g in range(len(cfg['grammars'])):
@@ -265,10 +266,10 @@ def make_diff(rng, tier):
                 ops.append(_diff_parse(cfg, fsmode, f, g, mode, texts[f]))
         elif r < 0.16:
             ops.append({'k': 'clock', 'dt': rng.choice([1.0, 700.0, 90000.0])})
-        elif r < 0.24 and fsmode:
+        elif fsmode and r < (0.40 if cfg['warn_error'] else 0.22):
             # the cache location becomes read-only / writable again: saves fail with a warning
-            ops.append({'k': 'chmod', 'c': 0, 'which': rng.choice(['root', 'ver']),
-                        'mode': rng.choice([0o555, 0o755]), 'create': False})
+            ro = not ro
+            ops.append({'k': 'chmod', 'c': 0, 'which': 'ver', 'mode': 0o555 if ro else 0o755, 'create': False})
         if rng.random() < 0.1:
             new = corpus.base_text(rng, max_lines)               # replace the whole file
         elif rng.random() < style:
